@@ -44,9 +44,10 @@ def obscure (act : Action) (e : Env) : Res Env :=
     newEncryptedUnwrap (encryptWithDigest A key (nonce e.digest) (encode e) e.digest)
       "elide.rs:elide_set_with_action:new_with_encrypted.unwrap"
   | .compress =>
+    -- `self.compress().unwrap_or_else(|_| self.clone())`
     match compress Z e with
     | .ok c => .ok c
-    | .err _ => .panic "elide.rs:elide_set_with_action:compress.unwrap"
+    | .err _ => .ok e
     | .panic p => .panic p
 
 mutual
